@@ -21,7 +21,7 @@ CONSTANTS NT,        \* number of tasks = number of workers (Settings.Concurrent
           GLimit,    \* Settings.GradEvaluations (0: none)
           HLimit,    \* Settings.HessEvaluations (0: none)
           ILimit,    \* Settings.MajorIterations (0: none)
-          Causes,    \* environment-controlled stop causes: subset of {"converge","recerr","mdone","probstatus"}
+          Causes,    \* environment-controlled stop causes: subset of {"converge","recerr","mdone","probstatus","runtime"}
           Kinds,     \* kinds of evaluation the method may ask for: subset of 0..7, bit 0 = Func, bit 1 = Grad, bit 2 = Hess
           MaxRuns    \* number of consecutive Minimize calls made with ONE Method value (re-Init)
 
@@ -206,10 +206,14 @@ Reached(f, g, h, fl, gl, hl) ==
 EvalStatusL(f, g, h, fl, gl, hl, causes) ==
     WithRecL((IF Reached(f, g, h, fl, gl, hl) = {} THEN {"none"} ELSE Reached(f, g, h, fl, gl, hl))
              \cup (IF "probstatus" \in causes THEN {"probstatus"} ELSE {}), causes)
-\* convergence tests first, then the iteration limit
+\* convergence tests first, then the iteration limit and the runtime limit.  Cause "runtime": Settings.Runtime
+\* is set and has certainly elapsed at every major iteration ("RuntimeLimit status is returned if the duration
+\* of the run is longer than this value. Runtime is only checked at MajorIterations"): a major iteration then
+\* never leaves the status NotTerminated
 MajorStatusL(k, il, causes) ==
-    WithRecL((IF il > 0 /\ k >= il THEN {"ilimit"} ELSE {"none"})
-             \cup (IF "converge" \in causes THEN {"converged"} ELSE {}), causes)
+    LET base == (IF il > 0 /\ k >= il THEN {"ilimit"} ELSE {"none"})
+                \cup (IF "converge" \in causes THEN {"converged"} ELSE {})
+    IN WithRecL(IF "runtime" \in causes THEN (base \ {"none"}) \cup {"rlimit"} ELSE base, causes)
 
 SProcL(fl, gl, hl, il, causes) ==
     /\ spc = "proc"
@@ -314,7 +318,9 @@ StatusJustified ==
     /\ final = "glimit" => (GLimit > 0 /\ statsG >= GLimit)
     /\ final = "hlimit" => (HLimit > 0 /\ statsH >= HLimit)
     /\ final = "ilimit" => (ILimit > 0 /\ iters >= ILimit)
-    /\ final \in {"flimit", "glimit", "hlimit", "ilimit", "converged", "probstatus", "fail", "mconv", "none"}
+    /\ final = "rlimit" => ("runtime" \in Causes /\ iters >= 1)
+    /\ ("runtime" \in Causes /\ iters >= 1 /\ spc \in {"back", "recv", "exit"}) => doneClosed   \* no major iteration is survived
+    /\ final \in {"flimit", "glimit", "hlimit", "ilimit", "rlimit", "converged", "probstatus", "fail", "mconv", "none"}
     /\ AllDone => final # "none"
 Drained == AllDone => ops = <<>> /\ res = <<>>
 \* every run of the sequence made with one Method value terminates
